@@ -86,7 +86,18 @@ fn loop_sig(m: &c15::Mismatch, ctx: &ff::ProbeCtx) -> String {
         // and is seen after that loop; a `never` here is the same loss followed by a guard
         // `while true`: a value first assigned in a later iteration is lost for want of back edges (the known cause);
         // one assigned on the first pass through the body is not explained by that
-        Some(LoopKind::WhileTrue) => format!("postloop:while-true:body-assign-lost:{}", if m.origin.first_pass { "assigned-on-first-pass" } else { "assigned-in-later-iteration-only" }),
+        // (a loss in any other loop before the probe - nested or earlier - can make a branch of the `while true` body look
+        // dead, so with other loops around the known causes cannot be told apart from a new one)
+        Some(LoopKind::WhileTrue) => format!(
+            "postloop:while-true:body-assign-lost:{}",
+            if ctx.loops_before.iter().any(|(k, _)| *k != LoopKind::WhileTrue) {
+                "with-other-loops"
+            } else if m.origin.first_pass {
+                "assigned-on-first-pass"
+            } else {
+                "assigned-in-later-iteration-only"
+            }
+        ),
         Some(kind) => format!("postloop:{}:body-assign-lost", kind.name()),
         None => {
             // the value was assigned outside every loop: the type after the loop lost it
